@@ -400,8 +400,9 @@ func (p *Process) waitUntilLogReady() bool {
 
 }
 
-func (p *Process) wontRun() {
-	p.onProcessEnd(types.ProcessStateSkipped)
+// wontRun ends the instance as Skipped; false if a stop request had ended it already
+func (p *Process) wontRun() bool {
+	return p.onProcessEnd(types.ProcessStateSkipped)
 }
 
 // perform graceful process shutdown if defined in configuration
@@ -525,12 +526,13 @@ func (p *Process) onProcessStart() {
 	close(p.procStartedChan)
 }
 
-func (p *Process) onProcessEnd(state string) {
+// onProcessEnd reports whether this call ended the instance
+func (p *Process) onProcessEnd(state string) bool {
 	if !p.claimEnd() {
 		// a stop request ended this instance while it was pending, racing with its being skipped
 		// or launched: an instance ends once
 		p.waitForCompletion()
-		return
+		return false
 	}
 	if isStringDefined(p.procConf.LogLocation) {
 		p.logger.Close()
@@ -557,6 +559,7 @@ func (p *Process) onProcessEnd(state string) {
 	verifTrace(p, "Done", "status", state, "exit", p.getExitCode())
 	p.Unlock()
 	p.procCond.Broadcast()
+	return true
 }
 
 func (p *Process) getLogPath() string {
